@@ -93,6 +93,8 @@ def run_case(c):
                         for cid, extra in op["cmds"] + [[first + i, rextra] for i in range(n)]:
                             def cb(packet, cid=cid):
                                 net.log.append(["cb", cid, bytes(packet)])
+                                net.now += op.get("cb", {}).get(str(cid), 0)      # a slow callback
+                            net.now += op.get("iter", {}).get(str(cid), 0)        # a slow command iterable
                             f = scpsim.cmd_fields(cid)
                             yield scpcall(f["x"], f["y"], f["p"], f["cmd"], f["arg1"], f["arg2"], f["arg3"],
                                           f["data"], cb, extra)
@@ -107,6 +109,7 @@ def run_case(c):
                         @classmethod
                         def from_bytestring(cls, data, n_args=3):
                             net.log.append(["cb", op["id"], bytes(data)])
+                            net.now += op.get("cb", {}).get(str(op["id"]), 0)
                             return real_packet.from_bytestring(data, n_args=n_args)
                     scp_connection.SCPPacket = ObservedSCPPacket
                     try:
@@ -126,7 +129,9 @@ def run_case(c):
             except Exception as e:                               # noqa
                 outcome = ["other", type(e).__name__, str(e)[:200]]
             trace = canon_log(net, lo)
-            bursts.append(dict(trace=trace, outcome=outcome, start=start, ret=ret,
+            pending = [[p[0]] + dg(p[2]) for p in getattr(net.policy, "pending", [])]
+            bursts.append(dict(trace=trace, outcome=outcome, start=start, ret=ret, end_now=net.now,
+                               pending=pending,   # replies in the simulated network / socket not yet read: [arrival, rc, seq, src]
                                events=[[[dg(b) for b in ds], t] for ds, t in net.events[elo:]],
                                raw_replies=[[b.hex() for b in ds] for ds, t in net.events[elo:]]
                                if op["op"] == "scp" else None))
